@@ -32,7 +32,7 @@ def cases(tier, seed):
     n = 340 if tier == "quick" else 30000
     for i in range(n):
         k = int(rng.integers(0, 5))
-        yield {"mesh": gen.random_mesh(rng, 50 if tier == "quick" else 300), "fmt": FORMATS[i % 3], "via_file": bool(rng.random() < 0.4),
+        yield {"mesh": gen.random_mesh(rng, 50 if tier == "quick" else 300, families=gen.DEFAULT_FAMILIES + ["sample"]), "fmt": FORMATS[i % 3], "via_file": bool(rng.random() < 0.4),
                "api": "encode_as" if rng.random() < 0.2 else "to_xarray", "source": SOURCES[int(rng.integers(0, len(SOURCES)))],
                "materialise": [MATERIALISE[int(j)] for j in rng.choice(len(MATERIALISE), size=k, replace=False)] if k else [],
                "prefix": [{"mesh": gen.random_mesh(rng, 40), "fmt": FORMATS[int(rng.integers(0, 3))], "edges": bool(rng.random() < 0.6)} for _ in range(int(rng.integers(0, 4)))],
